@@ -57,6 +57,11 @@ func ZeroValueOf(typeExpr ast.Expr, typ types.Type) ast.Expr {
 			zv = &ast.BasicLit{Kind: token.STRING, Value: `""`}
 		case info&types.IsBoolean != 0:
 			zv = &ast.Ident{Name: "false"}
+		case info&types.IsComplex != 0:
+			zv = &ast.BasicLit{Kind: token.INT, Value: "0"}
+		default:
+			// No literal is known for this basic type (e.g. unsafe.Pointer).
+			return nil
 		}
 		if isDefaultLiteralType(typ) {
 			return zv
